@@ -36,7 +36,7 @@ from vf.universes import SHAPES, RuleSpec, build_rule, concrete
 PROP = "C15"
 CAPS = {"quick": 1 << 16, "thorough": 1 << 19}
 NODES1 = ["p", "p.a", "p.b", "p.c"]
-NODES2 = ["p", "p.a", "p.b"]
+NODES2 = ["p", "p.a", "p.bb"]  # the regex rules of the pool match OTHER modules here than in NODES1 (p.bb instead of p.b)
 
 
 def evaluate_raw(rule, ev):
@@ -166,6 +166,29 @@ def pure_outcome(desc, ev1, ev2):
         return ("MISMATCH", f"on a second architecture the used rule object gives what a fresh one gives: {o4}", f"{o3}")
     if snapshot(ev1) != s0 or snapshot(ev2) != t0:
         return ("MISMATCH", "architectures unchanged", "an architecture changed")
+    if desc[0] == "rule":
+        # the used rule object re-pointed through the fluent API (new object, then new subject) behaves like a
+        # freshly built rule with that configuration
+        import dataclasses
+
+        spec = RuleSpec.from_json(desc[1])
+        if not spec.anything and spec.s_kind in ("named", "sub") and spec.o_kind in ("named", "sub"):
+            spec2 = dataclasses.replace(spec, o_kind="named", objects=("p.c",))
+            try:
+                rule.are_named("p.c")
+            except Exception as e:  # noqa: BLE001
+                return ("MISMATCH", "a completed rule accepts a new object", type(e).__name__)
+            o5, o6 = evaluate_raw(rule, ev1), evaluate_raw(build_rule(spec2), ev1)
+            if o5 != o6:
+                return ("MISMATCH", f"after .are_named('p.c') on the used rule object: what a fresh [{spec2.label()}] gives: {o6}", f"{o5}")
+            spec3 = dataclasses.replace(spec2, s_kind="named", subjects=("p.b",))
+            try:
+                rule.modules_that().are_named("p.b")
+            except Exception as e:  # noqa: BLE001
+                return ("MISMATCH", "a completed rule accepts a new subject", type(e).__name__)
+            o7, o8 = evaluate_raw(rule, ev1), evaluate_raw(build_rule(spec3), ev1)
+            if o7 != o8:
+                return ("MISMATCH", f"after .modules_that().are_named('p.b') on the used rule object: what a fresh [{spec3.label()}] gives: {o8}", f"{o7}")
     return ("OK", o1[0], o3[0])
 
 
